@@ -16,7 +16,9 @@ R4  scope precedence of the string evaluator: class body over enclosing function
 R5  a name that is not defined yet never fails the decoration: the scope's __missing__ hands out a proxy bound to that
     name, the module and the enclosing callable, and keeps it (interpreted);
 R6  every route that can be handed a string resolves it before anything else looks at the hint, and evaluates it inside a
-    handler that converts whatever the evaluation raises.
+    handler that converts whatever the evaluation raises;
+R7  the proxy's verdict is the referent's verdict: isinstance() against a proxy answers what isinstance() / is_bearable()
+    answer for the referent and the very object, issubclass() likewise; the referent-type memo does not remember failures.
 """
 from __future__ import annotations
 
@@ -53,6 +55,7 @@ def run(ctx):
     _scope_precedence(ctx)
     _missing(ctx)
     _routes(ctx)
+    _proxy_verdict(ctx)
 
 
 # ----------------------------------------------------------------------------------------------------------------- R1
@@ -610,3 +613,120 @@ def _routes(ctx):
             ctx.ob('C07.R6', f'resolver:{qualname_of(f)}:evaluation-converted', fm.where(c),
                    'whatever the evaluation of the string raises is re-raised as exception_cls from the original', good, norm(c)[:80])
     ctx.floor('C07.R6', n, 1, 'evaluations of annotation strings')
+
+
+# ----------------------------------------------------------------------------------------------------------------- R7
+def _proxy_verdict(ctx):
+    from sa.fold import AObj, FuncVal, _Abort, _Raise, _call_function
+    fam = _forward_family(ctx)
+    mm = ctx.repo.mod(META)
+    ctx.rule('C07.R7', 'a check against a name defined later gives the verdict of the referent: the proxy\'s __instancecheck__, '
+             'interpreted over {referent a plain isinstanceable class, a PEP hint that is not isinstanceable, a PEP hint that '
+             'also is a class (a generic)} × {the referent accepts, rejects}: it answers what isinstance(obj, referent) — for '
+             'plain classes — or is_bearable(obj, referent) — for PEP hints — answers for that very object and referent; '
+             '__subclasscheck__ answers issubclass(obj, referent type); the referent-type property raises a forward-reference '
+             'exception for a referent that is not isinstanceable and does not remember it')
+    with _Engine(ctx) as E:
+        F = E.F
+        env = F.module_env(META)
+        cls = F.const(META, 'BeartypeForwardRefMeta')
+        inst, subc, rtyp = cls.find('__instancecheck__'), cls.find('__subclasscheck__'), cls.find('__resolved_type_beartype__')
+        ctx.require(all(isinstance(f, FuncVal) for f in (inst, subc, rtyp)), 'anchor vanished: the proxy\'s __instancecheck__ / __subclasscheck__ / __resolved_type_beartype__')
+        state = {}
+        log = []
+
+        class _Proxy(AObj):
+            def __init__(self, referent, rtype=None):
+                d = self.__dict__
+                d['__resolved_hint_beartype__'] = referent
+                d['__resolved_type_beartype__'] = rtype if rtype is not None else referent
+                d['__exception_prefix_beartype__'] = ''
+                d['__hint_pep749_ref_beartype__'] = None
+                d['__scope_name_beartype__'] = 'mod'
+                d['__hint_name_beartype__'] = 'Later'
+                d['__name__'] = 'LaterProxy'
+
+            def __repr__(self):
+                return '<proxy of "Later">'
+        E.stub(env, 'is_object_isinstanceable', lambda o, *a, **k: state['isinstanceable'], ctx)
+        E.stub(env, 'is_hint_pep', lambda o, *a, **k: state['pep'], ctx)
+        denv = F.module_env('beartype.door._func.doorfunc')
+
+        def bearable(*a, **k):
+            log.append(('is_bearable', k.get('obj', a[0] if a else None), k.get('hint', a[1] if len(a) > 1 else None)))
+            return state['verdict']
+        E.stub(denv, 'is_bearable', bearable, ctx)
+        saved_b = F.builtin_hook
+
+        def bh(name, args, kw):
+            if name in ('isinstance', 'issubclass') and len(args) == 2 and args[0] == 'OBJ':
+                log.append((name, args[0], args[1]))
+                return state['verdict']
+            return saved_b(name, args, kw) if saved_b else NotImplemented
+        F.builtin_hook = bh
+        n = 0
+        try:
+            for kind, isinstanceable, pep, via in (('plain-class', True, False, 'isinstance'), ('pep-hint', False, True, 'is_bearable'),
+                                                   ('generic-class', True, True, 'is_bearable')):
+                for verdict in (True, False):
+                    state.update({'isinstanceable': isinstanceable, 'pep': pep, 'verdict': verdict})
+                    del log[:]
+                    out = raised = None
+                    try:
+                        out = _call_function(F, inst, [_Proxy('REFERENT'), 'OBJ'], {}, 1)
+                    except _Raise as ex:
+                        raised = _name(ex.what)
+                    except _Abort as ex:
+                        ctx.require(False, f'cannot interpret {inst.qual} ({kind}): {ex}')
+                    n += 1
+                    ctx.ob('C07.R7', f'proxy-verdict:instance:{kind}:{"accepts" if verdict else "rejects"}', mm.where(inst.node),
+                           f'the verdict is {via}(obj, referent) for the very object and referent',
+                           raised is None and out is verdict and log == [(via, 'OBJ', 'REFERENT')],
+                           f'evaluates to {out!r} / raises {raised!r} after {log!r}')
+            for verdict in (True, False):
+                state.update({'verdict': verdict})
+                del log[:]
+                out = raised = None
+                try:
+                    out = _call_function(F, subc, [_Proxy('REFERENT', 'REFERENT-TYPE'), 'OBJ'], {}, 1)
+                except _Raise as ex:
+                    raised = _name(ex.what)
+                except _Abort as ex:
+                    ctx.require(False, f'cannot interpret {subc.qual}: {ex}')
+                n += 1
+                ctx.ob('C07.R7', f'proxy-verdict:subclass:{"accepts" if verdict else "rejects"}', mm.where(subc.node),
+                       'the verdict is issubclass(obj, referent type)', raised is None and out is verdict and log == [('issubclass', 'OBJ', 'REFERENT-TYPE')],
+                       f'evaluates to {out!r} / raises {raised!r} after {log!r}')
+            # the referent-type memo
+            tables = [k for k, v in env.items() if isinstance(v, dict) and k.startswith('_') and 'type' in k and 'hint' not in k]
+            ctx.require(len(tables) == 1, f'anchor vanished: the referent-type memo table of the proxy metaclass ({tables})')
+            table = env[tables[0]]
+
+            def die(*a, **k):
+                raise _Raise(_name(k.get('exception_cls', 'BeartypeDecorHintPep3119Exception')), 'die_unless_object_isinstanceable')
+            E.stub(env, 'die_unless_object_isinstanceable', die, ctx)
+            E.stub(env, 'is_hint_pep484585_generic', lambda *a, **k: False, ctx)
+            for step, (isinstanceable, want) in enumerate(((False, 'raise'), (True, 'REFERENT'), (True, 'REFERENT'))):
+                if step == 0:
+                    table.clear()
+                    p = _Proxy('REFERENT')
+                state.update({'isinstanceable': isinstanceable})
+                out = raised = None
+                try:
+                    out = _call_function(F, rtyp, [p], {}, 1)
+                except _Raise as ex:
+                    raised = _name(ex.what)
+                except _Abort as ex:
+                    ctx.require(False, f'cannot interpret {rtyp.qual}: {ex}')
+                n += 1
+                if want == 'raise':
+                    ctx.ob('C07.R7', 'referent-type:not-isinstanceable', mm.where(rtyp.node),
+                           'a referent that cannot be passed to isinstance() raises a forward-reference exception and is not remembered',
+                           raised in fam and p not in table, f'evaluates to {out!r} / raises {raised!r}; memo {table!r}')
+                else:
+                    ctx.ob('C07.R7', f'referent-type:isinstanceable:step{step}', mm.where(rtyp.node), 'an isinstanceable referent is returned',
+                           raised is None and out == 'REFERENT', f'evaluates to {out!r} / raises {raised!r}')
+            table.clear()
+        finally:
+            F.builtin_hook = saved_b
+    ctx.floor('C07.R7', n, 11, 'verdict cases')
